@@ -2,7 +2,7 @@
 from analysis.engine import rule, AnchorMissing
 from analysis import cfg
 from analysis.sym import sym, show_in, nosite, peel, core, walk, ret_values, args_of, guards_at, atoms_at, \
-    variant_facts_at, symbolizer, simplify
+    variant_facts_at, symbolizer, simplify, memory_reads
 from analysis.pat import match, Call, Cap, ANY, Pred, Const, has, chain_names
 from rules.common import closure_of
 
@@ -170,6 +170,16 @@ def r3(ctx):
     ctx.require(not bad, b, 'tag-before-select', 'no source re-selection between the pull and the tagging of the item',
                 'the source index is re-selected (line %d) between the pull and the construction of the (item, index) pair'
                 % (bad[0].span['line'] if bad else 0), ts.span)
+    # the index component must be READ after the pull (a copy of self.idx taken before the exhaustion handling is stale)
+    for st_, pl_ in [(ts, ts.rv.ops[1].place)] if (ts.rv.ops[1].place is not None and ts.rv.ops[1].place.proj) else memory_reads(b, ts.rv.ops[1]):
+        if not match(sym(b, pl_), SELF_IDX):
+            continue
+        fresh = cfg.dominates(b, pull.bb, st_.bb) and st_.bb != pull.bb and \
+            not [c for c in sel if st_.bb in cfg.reach_from_succ(b, c.bb, removed_blocks=[pull.bb])]
+        ctx.require(fresh, b, 'tag-read-after-pull',
+                    'the source index stored in the pair is read (line %d) after the pull that produced the item' % st_.span['line'],
+                    'the source index stored in the pair is read at line %d, before the pull / before a possible re-selection: '
+                    'items pulled after an exhausted source are tagged with the old source' % st_.span['line'], st_.span)
     after = [c for c in sel if c.bb in cfg.reach(b, ts.bb) and any(names == {'Some'} for tt, names in variant_facts_at(b, c.bb))]
     ctx.require(len(after) >= 1, b, 'select-after-yield', 'after tagging, the next source is selected (next_idx())', None, ts.span)
     # ownership: the pulled item is never dropped on a normal path
